@@ -868,16 +868,29 @@ def _inst_eq_mod(classes, cls, exp, got):
     return True, n_lit, n_un
 
 
-def _own_leaves_are_defaults_mod(classes, g):
-    """the own leaf fields of instance g are the class's definition defaults (None when there is none) up to Literal
-    collisions / Union re-parses: (ok, #collisions, #re-parses)"""
+def _is_defaults_mod(classes, g):
+    """instance g is what the class builds from its definition defaults (None where there is none), up to Literal collisions /
+    Union re-parses at leaves — own leaves and, recursively, every nested member that is not None (below a member whose
+    default is None the nested wrappers' defaults are None too, so nested members are built from their own field defaults):
+    (ok, #collisions, #re-parses)"""
+    if g.get("t") != "inst":
+        return False, 0, 0
     gd = dict((n, v) for n, v in g["v"])
     n_lit = n_un = 0
     for f in class_of(classes, g["cls"])["fields"]:
+        got = gd.get(f["name"], {})
         if is_dc(f["ty"]):
+            if got == {"t": "none"}:
+                continue
+            if got.get("t") != "inst" or got.get("cls") != dc_name(f["ty"]):
+                return False, 0, 0
+            ok, a, b = _is_defaults_mod(classes, got)
+            if not ok:
+                return False, 0, 0
+            n_lit += a
+            n_un += b
             continue
         e = f["default"]["v"] if f["default"]["kind"] != "missing" else {"t": "none"}
-        got = gd.get(f["name"], {})
         if got == e:
             continue
         if _collides_to(f["ty"], e, got):
@@ -892,7 +905,9 @@ def _own_leaves_are_defaults_mod(classes, g):
 def _none_class_composite(case, fail):
     """for a failure "Optional[class] member: saved None, received an instance": (via_factory, via_unequal_default, #lit, #union)
     via_factory: the instance is a definition default instance up to collisions / re-parses inside it;
-    via_unequal_default: its own leaves are the class's defaults up to >= 1 collision / re-parse (so `arg != default`)"""
+    via_unequal_default: it is the class built from its definition defaults, with >= 1 leaf (its own or of a nested member:
+    `_is_at_default` looks into nested members) converted by a collision / re-parse — the documented rule of the two open
+    findings and nothing else — so that the member is "not at its defaults" and is built instead of staying None"""
     c = case["case"]
     g = fail["got"]
     if fail.get("kind") != "optional-class" or fail.get("expected") != {"t": "none"} or g.get("t") != "inst":
@@ -902,7 +917,7 @@ def _none_class_composite(case, fail):
             ok, a, b = _inst_eq_mod(c["classes"], g["cls"], cand, g)
             if ok:
                 return ("factory", a, b)
-    ok, a, b = _own_leaves_are_defaults_mod(c["classes"], g)
+    ok, a, b = _is_defaults_mod(c["classes"], g)
     if ok and a + b >= 1:
         return ("unequal-default", a, b)
     return None
